@@ -314,6 +314,8 @@ def main(argv=None) -> int:
 
     ctx = mp.get_context("fork")
     stopped_early = False
+    known_early = load_known()
+    n_unlisted_seen = 0
     with cf.ProcessPoolExecutor(max_workers=jobs, mp_context=ctx, initializer=_init_worker) as ex:
         pending = set()
         it = iter(enumerate(chunks))
@@ -367,9 +369,11 @@ def main(argv=None) -> int:
                             samples.append({"seed": out["seed"], "case": out["sample"]})
                         for v in out["violations"]:
                             viols.append((v, out.get("plan"), out))
+                            if match_known(prop, v, known_early) is None:
+                                n_unlisted_seen += 1
                 if harness_errors and any("worker died" in h for h in harness_errors):
                     break
-                if len(viols) > 200:
+                if n_unlisted_seen > 200:
                     stopped_early = True
                     exhausted = True
                 submit_more()
